@@ -612,6 +612,7 @@ func (s *Sim) Drive(root *G) Outcome {
 		default:
 		}
 		if s.Steps >= s.StepCap {
+			s.deadlocked = true // do not drain: the program may never terminate (runaway recursion)
 			return StepCap
 		}
 		g := P[0]
